@@ -143,7 +143,7 @@ def template_differential(ctx, templates, gen_compiled, kind, only_types=None):
     """exported templates: real back end on EVM  vs  Coq evaluator  vs  Coq arith_spec, on the boundary grid.
     Doubles as the Search for a broken tie/proof (evaluates whatever the generators emit NOW)."""
     rnd = ctx.rng(kind + "grid")
-    size = 11 if ctx.tier == "quick" else None
+    size = 11 if ctx.tier == "quick" else 14
     idx = [j for j, (op, ty, n) in enumerate(templates) if only_types is None or ty in only_types]
     grids = {}
     for j in idx:
@@ -171,7 +171,7 @@ def template_differential(ctx, templates, gen_compiled, kind, only_types=None):
         if gen_compiled:
             e = f"({e}) ++ (lev_row {j} G{gi} {un})"
         exprs.append(e)
-    outs = coqrun.eval_zlists(imports, exprs, "c03" + kind, shard=60)
+    outs = coqrun.eval_zlists(imports, exprs, "c03" + kind, shard=20, timeout=900)
     chain = Chain("cancun")
     n_eval = 0
     bad_model, failing = [], []
@@ -243,7 +243,7 @@ def glue_differential(ctx, tys, cfgs, size, want=None):
         meta.append((ty, "st", "AMul"))
         exprs.append(f"nest_row {X.nty(*ty)} G{i}")
         meta.append((ty, "nest", "nest"))
-    outs = coqrun.eval_zlists(imports, exprs, "c03glue", shard=80)
+    outs = coqrun.eval_zlists(imports, exprs, "c03glue", shard=40, timeout=900)
     expected = {}
     for (ty, fn, aop), o in zip(meta, outs):
         cs = pairs(grids[ty], aop == "AUSub")
@@ -282,10 +282,11 @@ def glue_differential(ctx, tys, cfgs, size, want=None):
                                         "expected": "revert" if e == -1 else hex(e),
                                         "observed": "revert" if got == -1 else hex(got),
                                         "calldata": data.hex(), "source": src})
-    ctx.corr["glue_cases"] = n_eval
-    ctx.corr["glue_distribution"] = dist
-    ctx.corr["glue_configs"] = [c.name for c in cfgs]
-    ctx.corr["glue_types"] = [tyname(t) for t in tys]
+    ctx.corr["glue_cases"] = ctx.corr.get("glue_cases", 0) + n_eval
+    for k_, v_ in dist.items():
+        ctx.corr.setdefault("glue_distribution", {})[k_] = ctx.corr.get("glue_distribution", {}).get(k_, 0) + v_
+    ctx.corr["glue_configs"] = sorted(set(ctx.corr.get("glue_configs", [])) | {c.name for c in cfgs})
+    ctx.corr["glue_types"] = sorted(set(ctx.corr.get("glue_types", [])) | {tyname(t) for t in tys})
     return n_eval, failing
 
 
@@ -357,8 +358,15 @@ def run(ctx):
                               {"op": op, "type": tyname(ty), "x": str(c[0]), "y": str(c[1]), "coq": str(l), "evm": str(g)})
     ctx.log(f"template differential done {time.time()-t0:.0f}s")
 
-    cfgs = core_configs() if ctx.tier == "quick" else configs("thorough")
-    n, gfail = glue_differential(ctx, tys, cfgs, 9 if ctx.tier == "quick" else 16)
+    if ctx.tier == "quick":
+        n, gfail = glue_differential(ctx, tys, core_configs(), 9)
+    else:
+        # all 65 types under the covering configuration set, then the boundary types under every configuration
+        n, gfail = glue_differential(ctx, tys, configs("quick"), 12)
+        deep = [(32, False, False), (32, True, False), (16, True, False), (17, True, False), (21, True, True)]
+        n2, gfail2 = glue_differential(ctx, deep, configs("thorough"), 9)
+        n += n2
+        gfail += gfail2
     total += n
     for f in gfail[:8]:
         found = True
